@@ -27,6 +27,11 @@ def array_cases():
         ("d/dt * v = tanh(w)*sin(v)^2", "np.tanh(w)*np.sin(v)**2"),
         ("d/dt * x = mean(vsum(A)) - x", "np.mean(np.sum(A)) - x"),
         ("d/dt * x = a - index(w, 2)", "a - w[2]"),
+        # index_axis along the FIRST axis (rows) and the second (columns), on a non-square and on a square matrix
+        ("d/dt * v = index_axis(A, 2, 0) + v*a", "A[2] + v*a"),
+        ("d/dt * v = index_axis(Mq, 1, 0) - v", "Mq[1] - v"),
+        ("d/dt * v = index_axis(Mq, 1, 1) - v", "Mq[:, 1] - v"),
+        ("d/dt * x = vsum(index_axis(A, 0, 0)) - x", "np.sum(A[0]) - x"),
     ]
 
 
@@ -44,8 +49,9 @@ def array_case(c):
     w = np.round(rng.uniform(-2, 2, size=4), 2)
     v = np.round(rng.uniform(-1, 1, size=4), 2)
     x, a = 0.3, 1.7
-    ARGS = {"n/op/A": VV(A), "n/op/w": VV(w), "n/op/v": VV(v, "state_var"), "n/op/x": VV(x, "state_var"), "n/op/a": VV(a)}
-    want = np.asarray(eval(c["expected"], dict(np=np, A=A, w=w, v=v, x=x, a=a)), dtype=float).ravel()
+    Mq = np.round(rng.uniform(-2, 2, size=(4, 4)), 2)
+    ARGS = {"n/op/Mq": VV(Mq), "n/op/A": VV(A), "n/op/w": VV(w), "n/op/v": VV(v, "state_var"), "n/op/x": VV(x, "state_var"), "n/op/a": VV(a)}
+    want = np.asarray(eval(c["expected"], dict(np=np, A=A, Mq=Mq, w=w, v=v, x=x, a=a)), dtype=float).ravel()
     fails = []
     try:
         cg = ComputeGraph(backend="default")
@@ -69,6 +75,9 @@ def array_case(c):
 
 
 def dispatch(c):
+    if c["kind"] == "lookup_interp":
+        from checks import c02 as _c02
+        return _c02.lookup_interp_case(c)
     if c["kind"] == "array_expr":
         return array_case(c)
     return cases.case_fn(c)
@@ -142,6 +151,10 @@ def families(tier, seed):
     for tag, feats, model in gen.c01_structured():
         if tag.startswith(("F3-", "F10-")):
             out.append(dict(tag=tag, features=dict(feats, path="code"), kind="field", model=model, vec=False, seed=seed, style=0))
+    # interp(x, grid, values) as a lookup table on a non-uniform grid, queried inside, at and outside the grid (generated code of the
+    # Python backends; C02 runs the same on Fortran)
+    for b in ("default", "torch", "jax"):
+        out.append(dict(tag=f"lookup-interp-nonuniform-grid/{b}", features=dict(path="code", backend=b, lookup_interp=True), kind="lookup_interp", backend=b))
     for i, (eq, exp) in enumerate(array_cases()):
         out.append(dict(tag=f"A{i}", features=dict(eq=eq), kind="array_expr", eq=eq, expected=exp, seed=seed + i))
     return out
